@@ -286,8 +286,8 @@ func cmdCheck(args []string) {
 	}
 	// obligations that existed in the baseline but are gone.  Names carry a snippet of the source line they belong to
 	// ("inv-keep:loop1:status @ if err != nil {", "bounds:x := a[i]"); a harmless re-wording of that line must not raise an
-	// alarm, so the comparison is by function + kind + clause label and by count: the contract-derived obligations of the
-	// baseline must still be generated at least as often.  Pure run-time safety obligations (bounds, nil, ...) exist only
+	// alarm, so the comparison is by function + kind + clause label: every contract-derived obligation of the
+	// baseline must still be generated at least once (a lower count only means merged paths or a removed site).  Pure run-time safety obligations (bounds, nil, ...) exist only
 	// where the code has such an operation and are not compared.
 	haveCoarse := map[string]int{}
 	for n := range have {
@@ -307,8 +307,13 @@ func cmdCheck(args []string) {
 	}
 	var missing []string
 	for _, k := range baseOrder {
-		if haveCoarse[k] < baseCoarse[k] {
+		if haveCoarse[k] == 0 {
 			missing = append(missing, fmt.Sprintf("%s (baseline %d, now %d)", k, baseCoarse[k], haveCoarse[k]))
+		} else if haveCoarse[k] < baseCoarse[k] {
+			// fewer instances of a clause (one per back edge, return point, call site or write): paths were merged or a
+			// site was removed; every remaining instance is still discharged, and what a removed site did is for the
+			// postconditions to notice.  Not an alarm (seeded_harmless/h23, h24), but kept in the evidence.
+			notes = append(notes, fmt.Sprintf("fewer instances than on the pinned tree: %s (baseline %d, now %d)", shortKey(k), baseCoarse[k], haveCoarse[k]))
 		}
 	}
 	for _, n := range missing {
